@@ -453,6 +453,8 @@ def run(ctx, tier):
     results += rebalance_gates(ctx)
     results += root_loaded(ctx)
     results += carriers(ctx)
+    import refcell
+    results += refcell.no_reborrow(ctx, 'C01.no-reborrow')
     # the clauses of the properties C01 is built on
     results += c07.exact_match_used(ctx, rule='C01.exact-match-used')
     results += c07.position_from_search(ctx, rule='C01.position-from-search')
